@@ -521,6 +521,11 @@ fn is_err_text_arg(e: &Expr) -> bool {
 
 impl<'a> VisitMut for Rw<'a> {
     fn visit_type_mut(&mut self, ty: &mut Type) {
+        if let Type::Path(tp) = ty {
+            for seg in tp.path.segments.iter_mut() {
+                self.filter_generic_args(&mut seg.arguments);
+            }
+        }
         match ty {
             Type::Path(tp) => {
                 // byte / iterator generics and Self
@@ -592,6 +597,9 @@ impl<'a> VisitMut for Rw<'a> {
                         np.segments.push(seg.clone());
                     }
                     *p = np;
+                    for seg in p.segments.iter_mut() {
+                        self.filter_generic_args(&mut seg.arguments);
+                    }
                 }
             }
         }
@@ -788,6 +796,13 @@ impl<'a> VisitMut for Rw<'a> {
                     let call = e.clone();
                     *e = Expr::Verbatim(quote!( { let #nm = #inner .collect::<Vec<_>>(); #(#hs)* #call } ));
                 }
+            }
+            Expr::Lit(ExprLit { lit: Lit::ByteStr(bs), .. }) => {
+                // E4c: a byte-string literal b"..." becomes the reference to the array literal of its bytes
+                let bytes = bs.value();
+                self.bump("E4c.byte_string_literal");
+                let list = bytes.iter().map(|b| format!("{}u8", b)).collect::<Vec<_>>().join(", ");
+                *e = parse_ex(&format!("&[{}]", list));
             }
             Expr::Binary(b) => {
                 self.visit_expr_mut(&mut b.left);
@@ -1253,7 +1268,7 @@ pub fn emit_fn(idx: &Index, fs: &FnSpec, tags: &[String], debug_view: bool, star
         Owner::Inherent(n) => (None, Some(n.clone()), None, sig.ident.to_string()),
         Owner::TraitImpl(_key, n, t) => {
             let st = src.impl_header.as_ref().map(|h| h.2.clone()).unwrap_or_else(|| n.clone());
-            if t == "Default" {
+            if t == "Default" || sig.receiver().is_some() {
                 // E1: `impl Default for T` becomes the inherent associated function `T::default()`
                 (None, Some(n.clone()), None, sig.ident.to_string())
             } else if (t == "From" || t == "TryFrom") && !fs.as_free {
@@ -1330,6 +1345,7 @@ pub fn emit_fn(idx: &Index, fs: &FnSpec, tags: &[String], debug_view: bool, star
     }
     // parameters
     let mut params: Vec<String> = vec![];
+    let mut rng_gens: Vec<String> = vec![];
     let mut pre_lets: Vec<Stmt> = vec![];
     for inp in sig.inputs.iter_mut() {
         match inp {
@@ -1346,6 +1362,17 @@ pub fn emit_fn(idx: &Index, fs: &FnSpec, tags: &[String], debug_view: bool, star
                         if rw.iter_generics.contains_key(&id.to_string()) {
                             rw.iter_params.insert(pi.ident.to_string());
                         }
+                    }
+                }
+                // E3e: an `impl RngCore + CryptoRng` parameter becomes a type parameter bounded by the
+                // prelude trait RngArg (implemented for ChaCha20Rng and &mut ChaCha20Rng)
+                if let Type::ImplTrait(it) = &*pt.ty {
+                    let t = it.to_token_stream().to_string();
+                    if t.contains("RngCore") || t.contains("CryptoRng") {
+                        let gname = format!("R{}__", rng_gens.len());
+                        rng_gens.push(format!("{}: RngArg", gname));
+                        *pt.ty = parse_ty(&gname);
+                        *rw.stats.entry("E3e.rng_generic".to_string()).or_insert(0) += 1;
                     }
                 }
                 rw.visit_type_mut(&mut pt.ty);
@@ -1447,11 +1474,12 @@ pub fn emit_fn(idx: &Index, fs: &FnSpec, tags: &[String], debug_view: bool, star
             GenericParam::Lifetime(_) => {}
         }
     }
+    gens.extend(rng_gens.iter().cloned());
     let out_name = fs.out_name.clone().unwrap_or(out_default);
     let mut s = String::new();
     let mut clause_lines: Vec<serde_json::Value> = vec![];
     let default_impl: Option<String> = match &src.owner {
-        Owner::TraitImpl(_, n, t) if t == "Default" => Some(n.clone()),
+        Owner::TraitImpl(_, n, t) if t == "Default" || (sig.receiver().is_some() && !(t == "From" || t == "TryFrom")) => Some(n.clone()),
         _ => None,
     };
     let indent = if matches!(src.owner, Owner::Inherent(_)) || conv_impl.is_some() || default_impl.is_some() { 1 } else { 0 };
